@@ -12,7 +12,7 @@ META = dict(
         thorough="same with S<=4 and more layouts",
     ),
     outside=["the samplers themselves (SciPy qmc, OpenTURNS, pyDOE, RNG code): that they return points of the unit cube, their sample counts and seed determinism are assumptions, not results",
-             "CustomDOE file parsing"],
+             "CustomDOE", "the level computation of full-factorial designs (int(n ** (1/d)) is a float operation)"],
     stubs=["unit sampler -> symbolic matrix in [0,1]^{S x d}", "float bounds injected into Variable.__dict__"],
     assumptions=["unit samples lie in [0,1]", "lb <= ub, integer bounds integral"],
 )
@@ -135,6 +135,14 @@ def configs(tier):
     for lay in ("B", "Ci", "iC", "i"):
         out.append(("execute", dict(layout=lay, S=2)))
     return out
+
+
+def crosshair_targets(tier):
+    from pathlib import Path
+
+    f = str(Path(__file__).resolve().parent.parent / "crosshair" / "C14_seeder.py")
+    return [dict(file=f, function=n, timeout=30 if tier == "quick" else 60)
+            for n in ("_explicit_seed_returned", "_default_seed_sequence", "_explicit_then_default", "_two_seeders_agree")]
 
 
 HARNESSES = {"compute_doe": h_compute_doe, "execute": h_execute}
